@@ -134,12 +134,80 @@ func (x *Exec) callStatic(st *State, in *ssa.Call, fv *FuncV, args []Value) (for
 	}
 	if callee.Blocks == nil || !inRepo(pkgPathOf(callee)) {
 		x.note("uncontracted call: %s (no contract; memory havocked)", callee.String())
+		x.havocAll(st, "call")
 	} else {
-		x.note("uncontracted call: %s (in-repo, not inlinable; memory havocked)", funcKey(callee))
+		x.note("uncontracted call: %s (in-repo, not inlinable; its SSA write footprint havocked)", funcKey(callee))
+		x.havocFootprint(st, callee)
 	}
-	x.havocAll(st, "call")
-	fr.vals[in] = x.freshValue("call_"+callee.Name(), in.Type())
+	v := x.freshValue("call_"+callee.Name(), in.Type())
+	x.typeFacts(st, v, in.Type())
+	fr.vals[in] = v
 	return nil, false
+}
+
+// havocFootprint forgets every heap the in-repo reach of callee may write and every heap that is not a field of a repository struct.
+func (x *Exec) havocFootprint(st *State, callee *ssa.Function) {
+	ws := x.footprintWrites(callee)
+	ghosts := x.footprintGhosts(callee)
+	written := ws.heaps
+	x.havocExcept(st, func(name string) bool {
+		if strings.HasPrefix(name, "G|") {
+			return !ghosts["*"] && !ghosts[strings.TrimPrefix(name, "G|")]
+		}
+		if _, w := written[name]; w {
+			return false
+		}
+		return repoFieldHeap(name)
+	})
+}
+
+// footprintGhosts: ghost maps that contracts of functions in the callee's reach (in-repo or external) declare as modified.
+func (x *Exec) footprintGhosts(callee *ssa.Function) map[string]bool {
+	if g, ok := ghostCache[callee]; ok {
+		return g
+	}
+	out := map[string]bool{}
+	fp := x.w.footprint([]*ssa.Function{callee}, nil)
+	consider := func(k *FuncSpec) {
+		if k == nil {
+			return
+		}
+		for _, l := range k.Modifies {
+			if l.Ghost != "" {
+				out[l.Ghost] = true
+			}
+		}
+	}
+	for f := range fp.Funcs {
+		consider(x.sp.lookupFunc(f))
+	}
+	for name := range fp.External {
+		for key, k := range x.sp.Funcs {
+			if k.Kind == "extern" && (strings.Contains(name, strings.TrimPrefix(key, "extern:")) || externMatches(name, k.Ref)) {
+				consider(k)
+			}
+		}
+	}
+	// interface invocations inside the reach with iface contracts
+	for f := range fp.Funcs {
+		for _, b := range f.Blocks {
+			for _, in := range b.Instrs {
+				if c, ok := in.(ssa.CallInstruction); ok && c.Common().IsInvoke() {
+					consider(x.sp.lookupIface(c.Common().Value.Type(), c.Common().Method.Name()))
+				}
+			}
+		}
+	}
+	ghostCache[callee] = out
+	return out
+}
+
+var ghostCache = map[*ssa.Function]map[string]bool{}
+
+// externMatches: ssa prints methods as (*pkg.T).M; extern refs are written pkg.T.M
+func externMatches(ssaName, ref string) bool {
+	n := strings.NewReplacer("(", "", ")", "", "*", "").Replace(ssaName)
+	return n == ref
 }
 
 func pkgPathOf(fn *ssa.Function) string {
@@ -416,18 +484,8 @@ func (x *Exec) havocLocs(st *State, env *Env, locs []Loc) {
 				x.havocAll(st, "modifies footprint on a non-static callee")
 				continue
 			}
-			ws := x.footprintWrites(x.curCallee)
-			x.note("assumption: callee %s writes at most its SSA write footprint (%d heaps); dependencies write no field of a repository struct except through repository callbacks", funcKey(x.curCallee), len(ws.heaps))
-			written := ws.heaps
-			x.havocExcept(st, func(name string) bool {
-				if strings.HasPrefix(name, "G|") {
-					return true
-				}
-				if _, w := written[name]; w {
-					return false
-				}
-				return repoFieldHeap(name)
-			})
+			x.note("assumption: callee %s writes at most its SSA write footprint; dependencies write no field of a repository struct except through repository callbacks", funcKey(x.curCallee))
+			x.havocFootprint(st, x.curCallee)
 		case l.Ghost != "":
 			g := x.sp.Ghosts[l.Ghost]
 			if g == nil {
